@@ -113,6 +113,18 @@ def corpus(rng, quick):
         for nn, nested in (("par", npar), ("map", nmap)):
             out.append(S("handled-fail-vs-nested-%s-%s" % (nn, hn), outer(handler, nested), {"items": [1, 2]},
                          {"fa": [("err", "EA", "m")] + ([("ok",)] if hn == "retry-ok" else []), "fx": [("ok",)]}, {"fa": 5, "fx": 40}))
+    # ... and while the nested Map's *re-entry event* (MaxConcurrency: first batch just joined) is still queued: the failing
+    # branch takes two Pass hops, so that under the canonical schedule the Map's task is requested first, both replies are
+    # published at the same instant, the Map's is handled first (join, re-entry event published) and the failure second —
+    # the re-entry event is then dropped with its never-launched slots (C03-F5's path, reached by no schedule before)
+    for hn, handler in (("none", {}), ("catch", {"Catch": [{"ErrorEquals": ["EA"], "Next": "R"}]}),
+                        ("retry-ok", {"Retry": [{"ErrorEquals": ["EA"], "IntervalSeconds": 3, "MaxAttempts": 2}]})):
+        m = {"StartAt": "P", "States": {"P": dict({"Type": "Parallel", "Next": "Z", "Branches": [
+            {"StartAt": "N", "States": {"N": json.loads(json.dumps(nmap))}},
+            {"StartAt": "A0", "States": {"A0": {"Type": "Pass", "Next": "A1"}, "A1": {"Type": "Pass", "Next": "A"}, "A": T("fa")}}]}, **handler),
+            "Z": {"Type": "Pass", "End": True}, "R": {"Type": "Pass", "Result": "recovered", "End": True}}}
+        out.append(S("handled-fail-vs-nested-map-reentry-%s" % hn, m, {"items": [1, 2]},
+                     {"fa": [("err", "EA", "m")] + ([("ok",)] if hn == "retry-ok" else []), "fx": [("ok",)]}, {"fa": 10, "fx": 10}))
     # a branch fails while a sibling is pending in a Task / Wait that has a Retry or Catch of its own (States.ALL,
     # States.TaskFailed), or sits in a nested fan-out that has one: the cancellation (Task.Terminated) of the sibling must go
     # through none of them — flat unhandled / caught / retried enclosing state
